@@ -4,7 +4,7 @@
    numbers the leaves in reading order.  One state = one document.                          *)
 EXTENDS Naturals, Sequences, FiniteSets, TLC
 
-CONSTANTS Kind,        \* "deck" | "book" | "pages"
+CONSTANTS Kind,        \* "deck" | "book" | "pages" | "typed"
           MaxUnits
 
 VARIABLE units
@@ -38,7 +38,12 @@ SheetGrids ==
 (* page = lines of token counts *)
 Pages == { <<>>, <<1>>, <<2, 1>>, <<1, 1, 1>> }
 
+(* typed sheet = the kinds of the two cells of its single data row (below a header row of two strings) *)
+TypedKinds == {"n", "nf", "b", "d", "date", "t", "e", "f", "s", "empty"}
+TypedRows == { <<a, b>> : a \in TypedKinds, b \in TypedKinds }
+
 Universe == CASE Kind = "deck"  -> Slides
+              [] Kind = "typed" -> TypedRows
               [] Kind = "book"  -> SheetGrids
               [] Kind = "pages" -> Pages
 
